@@ -381,11 +381,18 @@ func tryReplay(prog *Program, cs *ContractSet, rep *FuncReport, o *ObligSummary,
 	}()
 	wd := filepath.Join(work, "replay_"+sanitize(o.Name))
 	os.MkdirAll(wd, 0o755)
+	deadline := time.Now().Add(75 * time.Second)
+	tried := 0
 	for _, ob := range x.obligs {
 		if ob.Name != o.Name || ob.Cover {
 			continue
 		}
-		c := x.findCandidate(ob, wd, 8)
+		if tried >= 6 || time.Now().After(deadline) {
+			rr.How += "; candidate search stopped at its time budget"
+			break
+		}
+		tried++
+		c := x.findCandidate(ob, wd, 6)
 		if c == nil {
 			continue
 		}
